@@ -570,7 +570,27 @@ def g_guarded(tier):
             yield q
 
 
+def g_retest(tier):
+    """a value is read (tested or copied), overwritten by a store that does not go through the accumulator (from X / Y, ++, a
+    constant), and read again: what the optimiser remembers about the accumulator must not survive the store - also when the
+    variable's read and write addresses are spelled differently (split-port RAM, C17)"""
+    vars_ = [('va', lambda: V('va')), ('a1', lambda: Index('arr', C(1))), ('aX', lambda: Index('arr', X)), ('aY', lambda: Index('arr', Y)), ('wa', lambda: V('wa'))]
+    stores = [('=X', lambda v: A(v(), X)), ('=Y', lambda v: A(v(), Y)), ('=vb', lambda v: A(v(), V('vb'))), ('++', lambda v: ExprS(Inc('++', False, v()))), ('=0', lambda v: A(v(), C(0))), ('=3', lambda v: A(v(), C(3))),
+              ('+=X', lambda v: A(v(), X, '+=')), ('=vb+1', lambda v: A(v(), B('+', V('vb'), C(1))))]
+    for (vn, v), (sn, s) in itertools.product(vars_, stores):
+        if vn == 'aX' and sn in ('=X', '+=X') or vn == 'aY' and sn == '=Y': pass
+        base = 'deep/retest/%s/%s' % (vn, sn)
+        yield mkprog(base + '/nested-if', [If(B('==', v(), C(3)), Block([s(v), If(B('==', v(), C(3)), A(V('vc'), C(1)), A(V('vc'), C(2)))]), A(V('vc'), C(9)))])
+        yield mkprog(base + '/copy', [A(V('vd'), v()), s(v), A(V('vc'), v())])
+        yield mkprog(base + '/cmp-then-copy', [If(B('<', v(), C(5)), Block([s(v), A(V('vc'), v()), A(V('vd'), C(0))]))])
+        if keep(base, tier, 50):
+            yield mkprog(base + '/and', [If(B('&&', B('==', v(), C(3)), Comma(Assign(v(), '=', X) if sn == '=X' else Assign(v(), '=', V('vb')), B('==', v(), C(3)))), A(V('vc'), C(1)), A(V('vc'), C(2)))])
+            yield mkprog(base + '/while', [A(V('vd'), C(2)), While(B('&&', B('!=', v(), C(3)), V('vd')), Block([s(v), ExprS(Inc('--', False, V('vd')))]))])
+            yield mkprog(base + '/twice', [A(V('vd'), v()), s(v), A(V('vc'), v()), s(v), A(V('sb'), v())])
+
+
 def g_deep(tier):
+    yield from g_retest(tier)
     yield from g_flagctx(tier)
     yield from g_params(tier)
     yield from g_plain(tier)
